@@ -33,7 +33,7 @@ func (ex *c12Exec) rv(v c12Val) c12Val {
 	if len(r.Idx) > 0 {
 		return c12Load{Path: r.Path, Idx: r.Idx}
 	}
-	return c12Sym{Hole: -1, Desc: key}
+	return c12Sym{Hole: -1, Desc: key, From: r.Field}
 }
 
 // argVal evaluates a call argument: pointers into the receiver state stay references.
